@@ -495,3 +495,92 @@ func firstErrorLine(s string) string {
 	}
 	return ""
 }
+
+func hasQuant(t *Term, memo map[int]bool) bool {
+	if v, ok := memo[t.id]; ok {
+		return v
+	}
+	r := t.op == "forall" || t.op == "exists"
+	if !r {
+		for _, a := range t.args {
+			if hasQuant(a, memo) {
+				r = true
+				break
+			}
+		}
+	}
+	memo[t.id] = r
+	return r
+}
+
+// explainScript: the obligation with every quantified fact dropped; a model of it shows which ground
+// instances are missing. Prints the truth value of each conjunct of the goal and of the given probes.
+func explainScript(j *Job, o *Obligation) (string, []*Term) {
+	sc := NewScript()
+	sc.Raw(preamble(0))
+	memo := map[int]bool{}
+	for i := 0; i < o.NFact && i < len(j.Facts); i++ {
+		if !hasQuant(j.Facts[i], memo) {
+			sc.Assert(j.Facts[i])
+		}
+	}
+	cj := conjuncts(o.Goal)
+	var probes []*Term
+	for _, c := range cj {
+		if !hasQuant(c, memo) {
+			probes = append(probes, c)
+		}
+	}
+	// also the integer atoms compared in failing conjuncts
+	for _, c := range cj {
+		collectArith(c, &probes, map[int]bool{})
+	}
+	if pat := os.Getenv("GOVC_EXPLAIN_FACTS"); pat != "" {
+		// probe the guards and bodies of instance facts that mention a given constant or symbol
+		for i := 0; i < o.NFact && i < len(j.Facts); i++ {
+			f := j.Facts[i]
+			if hasQuant(f, memo) || !strings.Contains(f.String(), pat) {
+				continue
+			}
+			for f.op == "=>" {
+				probes = append(probes, f.args[0])
+				f = f.args[1]
+			}
+			probes = append(probes, f)
+		}
+	}
+	if !hasQuant(o.PC, memo) && !hasQuant(o.Goal, memo) {
+		sc.Assert(And(o.PC, Not(o.Goal)))
+	} else {
+		sc.Assert(o.PC)
+	}
+	for _, t := range probes {
+		sc.prepare(t)
+	}
+	sc.Raw("(check-sat)")
+	var sb strings.Builder
+	sb.WriteString("(get-value (")
+	for k, t := range probes {
+		if k > 0 {
+			sb.WriteByte(' ')
+		}
+		sb.WriteString(sc.TermString(t))
+	}
+	sb.WriteString("))")
+	sc.Raw(sb.String())
+	return strings.Replace(sc.String(), "(set-option :timeout 0)\n", "", 1), probes
+}
+
+func collectArith(t *Term, out *[]*Term, seen map[int]bool) {
+	if seen[t.id] || len(*out) > 40 {
+		return
+	}
+	seen[t.id] = true
+	if (t.op == "=" || t.op == "<" || t.op == "<=") && t.args[0].sort == SInt {
+		*out = append(*out, t.args[0], t.args[1])
+		return
+	}
+	for _, a := range t.args {
+		collectArith(a, out, seen)
+	}
+}
